@@ -272,7 +272,7 @@ func (s *Stack) nestedPathGetSet(env *Zlisp, dotpaths []string, setVal *Sexp) (S
 				return SexpNull, err
 			}
 			//P("\n found hash in x at i=%d, looping to next i\n", i)
-			return x.nestedPathGetSet(env, dotpaths[1:], setVal)
+			return x.nestedPathGetSet(env, dotpaths[i+1:], setVal)
 		case *Stack:
 			curStack = x
 		default:
